@@ -19,9 +19,10 @@
        for every environment with amounts in the mutez range; LAMBDA, EXEC, APPLY (first-class lambdas: closures, lambdas
        stored in data structures, nested EXEC); sets and maps of any comparable key type: EMPTY_SET, EMPTY_MAP, MEM, GET, UPDATE, GET_AND_UPDATE, SIZE, ITER,
        MAP on maps, set/map literals (pytezos' sorted Python lists agree with the reference's sorted lists: C01_compare_strict_order
-       + sorted insert/remove lemmas); APPLY does not capture sets/maps;
+       + sorted insert/remove lemmas);
        LAMBDA_REC, PACK/hashes, tickets, operations/contracts),
-     - programs accepted by [typecheck_nr] (Michelson typing + every MAP body returns the element type it got),
+     - programs accepted by [typecheck_nr] (the Michelson typing rules of Typing.v with ONE extra condition: every MAP body, on
+       lists and on maps, returns the element/value type it got),
      and it is stronger than asked: it holds for every fuel (OutOfFuel on one side iff on the other) and for every
      hidden prefix. Without the MAP restriction the statement is FALSE for pytezos ([C01_simulation_refuted],
      known finding empty-map-retype). *)
